@@ -25,6 +25,9 @@ def model_check(rep, module, cfg, what, workers=16, timeout=3000, coverage=False
     if r.violated:
         raise tlc.MachineryError('the model itself violates %s under %s:\n%s' % (r.violated, cfg, '\n'.join(tlc.counterexample(r.stdout))[-3000:]))
     rep.add_tlc(r, 'P1 %s (%s)' % (what, cfg))
+    # the configuration is not vacuous: the situations its properties talk about are reachable in it
+    import witness
+    witness.require(rep, module, cfg, override=override)
     for a in require_actions:
         d, t = r.coverage.get(a, (0, 0))
         if t == 0:
